@@ -39,10 +39,17 @@ structure Base (zu : Bool) (limit pre : Nat) (c : Cfg) : Prop where
   rep : replay zu limit pre c.trace = ⟨c.occ, true⟩
   cap : capOk zu limit c.occ.length = true
   fresh : ∀ x ∈ c.occ, x < c.next
+  nd : c.occ.Nodup
+  sub : ∀ x ∈ c.occ, x ∈ c.idx
 
 theorem handover_trace (c : Cfg) (i : Nat) : (handover c i).trace = c.trace := by unfold handover; split <;> rfl
 theorem handover_occ (c : Cfg) (i : Nat) : (handover c i).occ = c.occ := by unfold handover; split <;> rfl
 theorem handover_next (c : Cfg) (i : Nat) : (handover c i).next = c.next := by unfold handover; split <;> rfl
+theorem handover_idx (c : Cfg) (i : Nat) : (handover c i).idx = c.idx := by unfold handover; split <;> rfl
+theorem unlockCfg_idx (P : Proto) (c : Cfg) (i : Nat) : (unlockCfg P c i).idx = c.idx := by
+  unfold unlockCfg; split
+  · exact handover_idx c i
+  · rfl
 theorem unlockCfg_trace (P : Proto) (c : Cfg) (i : Nat) : (unlockCfg P c i).trace = c.trace := by
   unfold unlockCfg; split
   · exact handover_trace c i
@@ -58,50 +65,68 @@ theorem unlockCfg_next (P : Proto) (c : Cfg) (i : Nat) : (unlockCfg P c i).next 
 
 /-- `Base` speaks about the trace, the occupancy and the item counter only. -/
 theorem base_congr {zu : Bool} {limit pre : Nat} {c c' : Cfg} (hb : Base zu limit pre c)
-    (h1 : c'.trace = c.trace) (h2 : c'.occ = c.occ) (h3 : c'.next = c.next) : Base zu limit pre c' := by
-  refine ⟨?_, ?_, ?_⟩
+    (h1 : c'.trace = c.trace) (h2 : c'.occ = c.occ) (h3 : c'.next = c.next) (h4 : c'.idx = c.idx) :
+    Base zu limit pre c' := by
+  refine ⟨?_, ?_, ?_, ?_, ?_⟩
   · rw [h1, h2]; exact hb.rep
   · rw [h2]; exact hb.cap
   · rw [h2, h3]; exact hb.fresh
+  · rw [h2]; exact hb.nd
+  · rw [h2, h4]; exact hb.sub
 
 theorem base_unlock {zu : Bool} {limit pre : Nat} (P : Proto) {c : Cfg} (hb : Base zu limit pre c) (i : Nat) :
     Base zu limit pre (unlockCfg P c i) :=
-  base_congr hb (unlockCfg_trace P c i) (unlockCfg_occ P c i) (unlockCfg_next P c i)
+  base_congr hb (unlockCfg_trace P c i) (unlockCfg_occ P c i) (unlockCfg_next P c i) (unlockCfg_idx P c i)
 
 theorem base_init (zu : Bool) (limit pre : Nat) (progs : List (Nat × List Op))
     (h : capOk zu limit pre = true) : Base zu limit pre (init pre progs) := by
-  refine ⟨rfl, ?_, ?_⟩
+  refine ⟨rfl, ?_, ?_, ?_, ?_⟩
   · simpa [init] using h
   · intro x hx
     simpa [init] using hx
+  · simp [init, List.nodup_range]
+  · intro x hx
+    simpa [init] using hx
+
+theorem base_initDead (zu : Bool) (limit dead pre : Nat) (progs : List (Nat × List Op))
+    (h : capOk zu limit pre = true) : Base zu limit pre (initDead dead pre progs) := by
+  refine ⟨rfl, ?_, ?_, ?_, ?_⟩
+  · simpa [initDead] using h
+  · intro x hx
+    simp [initDead] at hx ⊢; omega
+  · simp [initDead, List.nodup_range]
+  · intro x hx
+    simp [initDead] at hx ⊢; omega
 
 theorem base_stp {zu : Bool} {limit pre : Nat} {c : Cfg} (hb : Base zu limit pre c)
     (tid : Nat) (t : Thread) (locks : List Nat) : Base zu limit pre (stpCfg c tid t locks) := by
-  refine ⟨?_, hb.cap, hb.fresh⟩
+  refine ⟨?_, hb.cap, hb.fresh, hb.nd, hb.sub⟩
   simp only [stpCfg]
   rw [replay_snoc, hb.rep]
   simp [specStep, hb.cap]
 
 /-- A blocked step: whatever happens to the thread table and the wait queue. -/
 theorem base_blk {zu : Bool} {limit pre : Nat} {c c' : Cfg} (hb : Base zu limit pre c) (tid : Nat)
-    (h1 : c'.trace = c.trace ++ [.blk tid c.occ.length]) (h2 : c'.occ = c.occ) (h3 : c'.next = c.next) :
-    Base zu limit pre c' := by
-  refine ⟨?_, ?_, ?_⟩
+    (h1 : c'.trace = c.trace ++ [.blk tid c.occ.length]) (h2 : c'.occ = c.occ) (h3 : c'.next = c.next)
+    (h4 : c'.idx = c.idx) : Base zu limit pre c' := by
+  refine ⟨?_, ?_, ?_, ?_, ?_⟩
   · rw [h1, h2, replay_snoc, hb.rep]
     simp [specStep, hb.cap]
   · rw [h2]; exact hb.cap
   · rw [h2, h3]; exact hb.fresh
+  · rw [h2]; exact hb.nd
+  · rw [h2, h4]; exact hb.sub
 
 theorem base_nop {zu : Bool} {limit pre : Nat} {c : Cfg} (hb : Base zu limit pre c) (tid : Nat) :
     Base zu limit pre (nopCfg c tid) := by
-  refine ⟨?_, hb.cap, hb.fresh⟩
+  refine ⟨?_, hb.cap, hb.fresh, hb.nd, hb.sub⟩
   simp only [nopCfg]
   rw [replay_snoc, hb.rep]
   simp [specStep, hb.cap]
 
 theorem base_refuseCore {zu : Bool} {limit pre : Nat} {c : Cfg} (hb : Base zu limit pre c) (tid : Nat) :
     Base zu limit pre (refuseCore c tid) := by
-  refine ⟨?_, hb.cap, hb.fresh⟩
+  refine ⟨?_, hb.cap, hb.fresh, hb.nd, hb.sub⟩
   simp only [refuseCore]
   rw [replay_snoc, hb.rep]
   simp [specStep, hb.cap]
@@ -124,13 +149,23 @@ theorem base_rel {zu : Bool} {limit pre : Nat} {c : Cfg} (hb : Base zu limit pre
                                trace := c.trace ++ [.rel tid it (c.occ.erase it).length] } := by
   have hcap : capOk zu limit (c.occ.erase it).length = true :=
     capOk_mono zu limit _ _ hb.cap (erase_length_le _ _)
-  refine ⟨?_, hcap, ?_⟩
+  refine ⟨?_, hcap, ?_, hb.nd.erase it, ?_⟩
   · simp only
     rw [replay_snoc, hb.rep]
     have hc : c.occ.contains it = true := List.contains_iff_mem.mpr hin
     simp only [specStep, hcap, hc, beq_self_eq_true, Bool.and_self]
   · intro x hx
     exact hb.fresh x (List.mem_of_mem_erase hx)
+  · intro x hx
+    exact hb.sub x (List.mem_of_mem_erase hx)
+
+theorem nodup_snoc' {l : List Nat} {i : Nat} (h : l.Nodup) (hi : i ∉ l) : (l ++ [i]).Nodup := by
+  rw [List.nodup_append]
+  refine ⟨h, by simp, ?_⟩
+  intro a ha b hb
+  simp at hb
+  subst hb
+  intro e; subst e; exact hi ha
 
 theorem next_not_mem {zu : Bool} {limit pre : Nat} {c : Cfg} (hb : Base zu limit pre c) : c.next ∉ c.occ := by
   intro h
@@ -140,7 +175,7 @@ theorem base_admitCore {zu : Bool} {limit pre : Nat} {c : Cfg} (hb : Base zu lim
     (hcap : capOk zu limit (c.occ.length + 1) = true) :
     Base zu limit pre (admitCore c tid c.occ none) := by
   have hn := next_not_mem hb
-  refine ⟨?_, ?_, ?_⟩
+  refine ⟨?_, ?_, ?_, ?_, ?_⟩
   · simp only [admitCore]
     rw [replay_snoc, hb.rep]
     simp [specStep, hcap, hn]
@@ -150,6 +185,13 @@ theorem base_admitCore {zu : Bool} {limit pre : Nat} {c : Cfg} (hb : Base zu lim
     rcases hx with hx | hx
     · exact Nat.lt_succ_of_lt (hb.fresh x hx)
     · simp only [admitCore]; omega
+  · simp only [admitCore]
+    exact nodup_snoc' hb.nd hn
+  · intro x hx
+    simp only [admitCore, List.mem_append, List.mem_singleton] at hx ⊢
+    rcases hx with hx | hx
+    · exact Or.inl (hb.sub x hx)
+    · exact Or.inr hx
 
 theorem base_admit {limit pre : Nat} (P : Proto) {c : Cfg} (hb : Base P.zeroUnl limit pre c) (tid : Nat)
     (hcap : capOk P.zeroUnl limit (c.occ.length + 1) = true) :
@@ -163,7 +205,8 @@ theorem base_admitCore_evict {zu : Bool} {limit pre : Nat} {c : Cfg} (hb : Base 
     have := hb.cap; rw [hocc] at this; simpa using this
   have her : c.occ.erase v = r := by rw [hocc]; simp
   have hv : v ∈ c.occ := by rw [hocc]; simp
-  refine ⟨?_, ?_, ?_⟩
+  have hrs : ∀ x ∈ r, x ∈ c.occ := fun x hx => by rw [hocc]; exact List.mem_cons_of_mem _ hx
+  refine ⟨?_, ?_, ?_, ?_, ?_⟩
   · simp only [admitCore]
     rw [replay_snoc, hb.rep]
     simp [specStep, hcap, hn, her, hv]
@@ -171,8 +214,16 @@ theorem base_admitCore_evict {zu : Bool} {limit pre : Nat} {c : Cfg} (hb : Base 
   · intro x hx
     simp only [admitCore, List.mem_append, List.mem_singleton] at hx
     rcases hx with hx | hx
-    · exact Nat.lt_succ_of_lt (hb.fresh x (by rw [hocc]; exact List.mem_cons_of_mem _ hx))
+    · exact Nat.lt_succ_of_lt (hb.fresh x (hrs x hx))
     · simp only [admitCore]; omega
+  · simp only [admitCore]
+    have hnd : r.Nodup := by have := hb.nd; rw [hocc] at this; exact (List.nodup_cons.mp this).2
+    exact nodup_snoc' hnd (fun hx => hn (hrs _ hx))
+  · intro x hx
+    simp only [admitCore, List.mem_append, List.mem_singleton] at hx ⊢
+    rcases hx with hx | hx
+    · exact Or.inl (hb.sub x (hrs x hx))
+    · exact Or.inr hx
 
 theorem base_admit_evict {limit pre : Nat} (P : Proto) {c : Cfg} (hb : Base P.zeroUnl limit pre c) (tid v : Nat)
     (r : List Nat) (hocc : c.occ = v :: r) :
@@ -258,15 +309,53 @@ theorem invA_admit_evict {P : Proto} {limit pre : Nat} {c : Cfg} (h : InvA P lim
   apply passedOk_unlock
   exact passedOkT_upd h.passed tid _ (by intro s k hh; cases hh)
 
+theorem invA_admitHold {P : Proto} {limit pre : Nat} {c : Cfg} (h : InvA P limit pre c) (tid : Nat)
+    (hcap : capOk P.zeroUnl limit (c.occ.length + 1) = true) : InvA P limit pre (admitHold P c tid) := by
+  refine ⟨base_congr (base_admitCore h.base tid hcap) rfl rfl rfl rfl, ?_⟩
+  unfold admitHold
+  exact passedOkT_upd h.passed tid _ (by intro s k hh; cases hh)
+
+theorem base_end {zu : Bool} {limit pre : Nat} {c : Cfg} (hb : Base zu limit pre c) (tid : Nat) :
+    Base zu limit pre (endCfg c tid) :=
+  base_congr (base_stp hb tid (c.threads tid) c.locks) rfl rfl rfl rfl
+
+theorem invA_end {P : Proto} {limit pre : Nat} {c : Cfg} (h : InvA P limit pre c) (tid : Nat) :
+    InvA P limit pre (endCfg c tid) := by
+  refine ⟨base_end h.base tid, ?_⟩
+  unfold endCfg
+  exact passedOkT_upd h.passed tid _ (by intro s k hh; cases hh)
+
+theorem invA_revoke {P : Proto} {limit pre : Nat} {c : Cfg} (h : InvA P limit pre c) (tid k : Nat) (fail : Bool) :
+    InvA P limit pre (revokeStep c tid k fail) := by
+  have hst : ∀ k', InvA P limit pre (stpCfg c tid { c.threads tid with pc := .revoking k' } c.locks) :=
+    fun k' => invA_stp h tid _ _ (by intro s k hh; cases hh)
+  unfold revokeStep
+  split
+  · split
+    · exact invA_end h tid
+    · exact hst 1
+  · exact hst _
+  · exact hst _
+  · split
+    · exact hst 4
+    · split
+      · exact hst 4
+      · rename_i it _
+        by_cases hin : it ∈ c.occ
+        · simp only [hin, if_true]
+          exact ⟨base_rel h.base tid it _ hin, passedOkT_upd h.passed tid _ (by intro s k hh; cases hh)⟩
+        · simp only [hin, if_false]; exact hst 4
+  · exact invA_end h tid
+
 theorem invA_blk {P : Proto} {limit pre : Nat} {c : Cfg} (h : InvA P limit pre c) (tid : Nat) :
     InvA P limit pre (blkCfg c tid) :=
-  ⟨base_blk h.base tid rfl rfl rfl, h.passed⟩
+  ⟨base_blk h.base tid rfl rfl rfl rfl, h.passed⟩
 
 theorem invA_lock {P : Proto} {limit pre : Nat} {c : Cfg} (h : InvA P limit pre c) (tid : Nat) :
     InvA P limit pre (lockStep c tid) := by
   unfold lockStep
   split
-  · exact ⟨base_blk (c' := waitCfg c tid) h.base tid rfl rfl rfl, passedOkT_upd h.passed tid _ (by intro s k hh; cases hh)⟩
+  · exact ⟨base_blk (c' := waitCfg c tid) h.base tid rfl rfl rfl rfl, passedOkT_upd h.passed tid _ (by intro s k hh; cases hh)⟩
   · exact invA_stp h tid _ _ (by intro s k hh; cases hh)
 
 theorem invA_final {P : Proto} {limit pre : Nat} {c : Cfg} (h : InvA P limit pre c) (tid snap : Nat)
@@ -318,17 +407,30 @@ theorem invA_read {P : Proto} {limit pre : Nat} {c : Cfg} (h : InvA P limit pre 
   cases he : P.early with
   | true =>
     simp only [if_true]
-    by_cases hc : P.cnt c.occ.length = 0
-    · simp only [hc, if_true]; exact invA_check h tid _
-    · simp only [hc, if_false]
-      apply invA_stp h
-      intro s k hh; simp at hh
+    split
+    · split
+      · exact invA_check h tid _
+      · exact invA_stp h tid _ _ (by intro s k hh; cases hh)
+    · by_cases hc : P.cnt c.occ.length = 0
+      · simp only [hc, if_true]; exact invA_check h tid _
+      · simp only [hc, if_false]
+        apply invA_stp h
+        intro s k hh; simp at hh
   | false =>
     simp only [Bool.false_eq_true, if_false]
     apply invA_final h tid _ hfin
     intro hf
     rw [hcas hf] at he
     exact absurd he (by simp)
+
+theorem invA_scan {P : Proto} {limit pre : Nat} {c : Cfg} (h : InvA P limit pre c) (tid : Nat) (rest : List Nat) (acc : Nat) :
+    InvA P limit pre (scanStep P limit c tid rest acc) := by
+  unfold scanStep
+  split
+  · exact invA_check h tid _
+  · split
+    · exact invA_check h tid _
+    · exact invA_stp h tid _ _ (by intro s k hh; cases hh)
 
 theorem invA_noise {P : Proto} {limit pre : Nat} {c : Cfg} (h : InvA P limit pre c) (tid : Nat) :
     InvA P limit pre (noiseStep P limit c tid) := by
@@ -378,9 +480,19 @@ theorem invA_step {P : Proto} {limit pre : Nat} {c : Cfg} (h : InvA P limit pre 
         simp only [PC.passed.injEq] at hh
         rw [← hh.1]
         exact h.passed tid snap (k' + 1) hpc
-    · exact h
+    · split
+      · exact invA_done h tid
+      · exact invA_stp h tid _ _ (by intro s k hh; cases hh)
     · simp only [hfu, Bool.false_eq_true, if_false]
       exact h
+    · exact invA_scan h tid _ _
+    · exact h
+  · split
+    · split
+      · exact invA_stp h tid _ _ (by intro s k hh; cases hh)
+      · exact invA_end h tid
+    · exact invA_revoke h tid _ _
+    · exact h
   · split
     · split
       · exact invA_lock h tid
@@ -390,6 +502,8 @@ theorem invA_step {P : Proto} {limit pre : Nat} {c : Cfg} (h : InvA P limit pre 
     · split
       · exact invA_done h tid
       · exact invA_stp h tid _ _ (by intro s k hh; cases hh)
+    · exact h
+    · exact h
     · exact h
     · exact h
     · exact h
